@@ -149,7 +149,7 @@ CHECKS.update({
  "C16": dict(
   text=("Lock-invariant reasoning, machine-checked per function: (1) every access to state declared `guard`ed (allocator bitmaps, PluginState.Recordsv4, Handler.Records, file.StaticRecords) happens with its mutex held (read-held suffices for reads under the RWMutex); "
         "(2) Lock/RLock are never called on a mutex the goroutine holds, Unlock/RUnlock only on one it holds, and every exit leaves each touched mutex as at entry; (3) for the two allocators and the range plugin's lease table the state protected by the mutex is HAVOCKED at every acquisition (what other goroutines left there, "
-        "up to the invariant, which is an obligation at every release) and the C02 and C04-C07 postconditions - which count for this check as well - are proved about the critical section, so a check-then-act split over two critical sections fails; (4) the receive-buffer pool only holds full-capacity buffers and handlers receive freshly parsed, non-aliased packets. "
+        "up to the invariant, which is an obligation at every release) and the C02 and C04-C07 postconditions - which count for this check as well - are proved about the critical section, so a check-then-act split over two critical sections fails; (4) the receive-buffer pool only holds full-capacity buffers, every datagram handler owns its receive buffer (ownership token set by Pool.Get, transferred to the handler goroutine by the go statement, cleared by Pool.Put: a buffer cannot be handed to two handlers, nor be reused by the receive loop while a handler may still parse it) and handlers receive freshly parsed, non-aliased packets. "
         "From (1)-(3) freedom from data races on the guarded state and preservation of the data-structure invariants at every critical-section boundary in every schedule follow by the classical lock-invariant argument (DESIGN 2.9) - that meta-argument is on paper."),
   note=SRV_NOTE + " NOT claimed: equality of the reply set with a serial order at message granularity (the prefix plugin releases its mutex between the IA_PDs of one message); races inside logrus, fsnotify, sqlite, the codec; logger.GetLogger's double-checked locking (trusted contract; only called from package initialisers); for prefix/file the postconditions are sequential (the map state is not havocked at acquisition). The Go race detector is used only to replay one lock obligation, not as a deciding method.",
   technique="contract-based deductive verification: lock-ownership obligations (guarded-by), lock-invariant havoc at acquisition", ref="DESIGN.md section 7 (C16), 2.9"),
